@@ -722,7 +722,9 @@ def jobs(tier):
     else:
         for t in _role_tuples(4, ('absent', 'cand', 'child', 'parent', 'connecting')):
             for sess in (True, False):
-                out.append({'harness': 'step', 'fn': h_step, 'params': {'roles': t, 'session': sess}, 'requires': ['quiescent']})
+                # thorough: both real ways an incoming peer reaches us (the bare event is the quick tier's third variant)
+                out.append({'harness': 'step', 'fn': h_step, 'params': {'roles': t, 'session': sess, 'vias': ['accept', 'indirect']},
+                            'requires': ['quiescent']})
         for first in ('incoming', 'pp_list', 'user_stats', 'reset', 'session_destroyed'):
             for second in range(SEQ_SECOND[first]):
                 for phase in (0, 1):
